@@ -1,39 +1,45 @@
 -------------------------- MODULE Ind_LockFileProof --------------------------
 (* X05 - TLAPS proof, over the ORIGINAL module LockFile, that MutualExclusion, OwnerAgrees,
    ValidCounters, Chain and ZeroOnlyFirst hold in every reachable state of LSpec for ANY number
-   of participants, ANY file size N and ANY assignment Bytes of participants to terminals.    *)
+   of users, ANY grouping ProcOf of users into processes, ANY file size N and ANY assignment Bytes
+   of users to terminals.                                                                    *)
 EXTENDS LockFile, SequenceTheorems, TLAPS
 
 ASSUME LFAssump == /\ N \in Nat
-                   /\ Bytes \in [Procs -> 0 .. (N - 1)]
-                   /\ None \notin Procs
+                   /\ Bytes \in [Users -> 0 .. (N - 1)]
+                   /\ None \notin Users
                    /\ None \notin 0 .. 7
 
-PCs == {"start", "created", "open", "locked", "holding", "written"}
+PCs == {"idle", "locked", "holding", "written"}
+PPCs == {"start", "created", "open"}
 BytesR == 0 .. (N - 1)
 Ctr == 0 .. 7
 
 TypeInv == /\ exists \in BOOLEAN
            /\ phys \in Seq(Ctr) /\ Len(phys) <= N
-           /\ owner \in [BytesR -> Procs \cup {None}]
-           /\ pc \in [Procs -> PCs]
-           /\ ctr \in [Procs -> Ctr]
+           /\ owner \in [BytesR -> Users \cup {None}]
+           /\ ppc \in [Procs -> PPCs]
+           /\ pc \in [Users -> PCs]
+           /\ ctr \in [Users -> Ctr]
            /\ last \in [BytesR -> Ctr \cup {None}]
 
-OwnerInv == \A p \in Procs : Holding(p) <=> owner[Bytes[p]] = p
+OwnerInv == \A p \in Users : Holding(p) <=> owner[Bytes[p]] = p
 
 (* nothing has happened while the file does not exist *)
 NotYet == ~exists => /\ phys = <<>>
-                     /\ \A p \in Procs : pc[p] = "start"
+                     /\ \A q \in Procs : ppc[q] = "start"
                      /\ \A b \in BytesR : last[b] = None
+
+(* a user works on the file only once its process has it open *)
+UserOpen == \A u \in Users : pc[u] # "idle" => ppc[ProcOf[u]] = "open"
 
 (* the chain, strengthened: the file carries the successor whenever nobody is between reading
    the byte and writing it back                                                              *)
 ChainS == \A b \in BytesR : last[b] # None =>
-            /\ \A p \in Procs : (pc[p] \in {"holding", "written"} /\ Bytes[p] = b) => ctr[p] = Succ(last[b])
-            /\ (\A p \in Procs : ~(pc[p] = "holding" /\ Bytes[p] = b)) => Logical(b) = Succ(last[b])
+            /\ \A p \in Users : (pc[p] \in {"holding", "written"} /\ Bytes[p] = b) => ctr[p] = Succ(last[b])
+            /\ (\A p \in Users : ~(pc[p] = "holding" /\ Bytes[p] = b)) => Logical(b) = Succ(last[b])
 
-IndInv == TypeInv /\ OwnerInv /\ NotYet /\ ChainS
+IndInv == TypeInv /\ OwnerInv /\ NotYet /\ UserOpen /\ ChainS
 
 -----------------------------------------------------------------------------
 LEMMA SuccType == \A c \in Ctr : Succ(c) \in 1 .. 7
@@ -104,17 +110,17 @@ LEMMA LogicalType == TypeInv => \A b \in BytesR : Logical(b) \in Ctr
 
 -----------------------------------------------------------------------------
 THEOREM LInitInd == LInit => IndInv
-  BY LFAssump DEF LInit, IndInv, TypeInv, OwnerInv, NotYet, ChainS, Holding, PCs, BytesR, Ctr
+  BY LFAssump DEF LInit, IndInv, TypeInv, OwnerInv, NotYet, UserOpen, ChainS, Holding, PCs, PPCs, BytesR, Ctr, Procs
 
 THEOREM LStepInd == IndInv /\ [LNext]_lvars => IndInv'
 <1> SUFFICES ASSUME IndInv, [LNext]_lvars PROVE IndInv'
   OBVIOUS
 <1> USE LFAssump
 <1>0. CASE UNCHANGED lvars
-  BY <1>0 DEF lvars, IndInv, TypeInv, OwnerInv, NotYet, ChainS, Holding, Logical
-<1>1. ASSUME NEW p \in Procs, Create(p) PROVE IndInv'
-  BY <1>1 DEF Create, IndInv, TypeInv, OwnerInv, NotYet, ChainS, Holding, Logical, PCs, BytesR, Ctr
-<1>2. ASSUME NEW p \in Procs, WriteInit(p) PROVE IndInv'
+  BY <1>0 DEF lvars, IndInv, TypeInv, OwnerInv, NotYet, UserOpen, ChainS, Holding, Logical
+<1>1. ASSUME NEW q \in Procs, Create(q) PROVE IndInv'
+  BY <1>1 DEF Create, IndInv, TypeInv, OwnerInv, NotYet, UserOpen, ChainS, Holding, Logical, PCs, PPCs, BytesR, Procs, Ctr
+<1>2. ASSUME NEW q \in Procs, WriteInit(q) PROVE IndInv'
   <2>1. exists /\ N - Len(phys) \in Nat /\ phys \in Seq(Ctr)
     BY <1>2 DEF WriteInit, IndInv, TypeInv, NotYet
   <2>2. /\ phys' \in Seq(Ctr) /\ Len(phys') = N
@@ -122,24 +128,30 @@ THEOREM LStepInd == IndInv /\ [LNext]_lvars => IndInv'
     BY <1>2, <2>1, PadProp DEF WriteInit
   <2>3. \A b \in BytesR : Logical(b)' = Logical(b)
     BY <2>1, <2>2 DEF Logical, BytesR, IndInv, TypeInv
-  <2> QED BY <1>2, <2>1, <2>2, <2>3 DEF WriteInit, IndInv, TypeInv, OwnerInv, NotYet, ChainS, Holding, PCs, BytesR
-<1>3. ASSUME NEW p \in Procs, OpenExisting(p) PROVE IndInv'
-  BY <1>3 DEF OpenExisting, IndInv, TypeInv, OwnerInv, NotYet, ChainS, Holding, Logical, PCs, BytesR
-<1>4. ASSUME NEW p \in Procs, NEW ok \in BOOLEAN, TryLockf(p, ok) PROVE IndInv'
-  BY <1>4 DEF TryLockf, IndInv, TypeInv, OwnerInv, NotYet, ChainS, Holding, Logical, PCs, BytesR
-<1>5. ASSUME NEW p \in Procs, ReadByte(p, Logical(Bytes[p])) PROVE IndInv'
+  <2>4. UserOpen'
+    BY <1>2 DEF WriteInit, IndInv, TypeInv, UserOpen, Procs
+  <2>5. TypeInv' /\ OwnerInv' /\ NotYet' /\ ChainS'
+    BY <1>2, <2>1, <2>2, <2>3 DEF WriteInit, IndInv, TypeInv, OwnerInv, NotYet, ChainS, Holding, PCs, PPCs, BytesR
+  <2> QED BY <2>4, <2>5 DEF IndInv
+<1>3. ASSUME NEW q \in Procs, OpenExisting(q) PROVE IndInv'
+  BY <1>3 DEF OpenExisting, IndInv, TypeInv, OwnerInv, NotYet, UserOpen, ChainS, Holding, Logical, PCs, PPCs, BytesR, Procs
+<1>4. ASSUME NEW p \in Users, NEW ok \in BOOLEAN, TryLockf(p, ok) PROVE IndInv'
+  BY <1>4 DEF TryLockf, IndInv, TypeInv, OwnerInv, NotYet, UserOpen, ChainS, Holding, Logical, PCs, PPCs, BytesR, Procs
+<1>5. ASSUME NEW p \in Users, ReadByte(p, Logical(Bytes[p])) PROVE IndInv'
   <2>1. Logical(Bytes[p]) \in Ctr /\ Bytes[p] \in BytesR
     BY LogicalType DEF IndInv, BytesR
-  <2>2. \A q \in Procs : (pc[q] = "holding" /\ Bytes[q] = Bytes[p]) => FALSE
+  <2>2. \A u \in Users : (pc[u] = "holding" /\ Bytes[u] = Bytes[p]) => FALSE
     BY <1>5 DEF ReadByte, IndInv, OwnerInv, Holding
-  <2> QED BY <1>5, <2>1, <2>2 DEF ReadByte, IndInv, TypeInv, OwnerInv, NotYet, ChainS, Holding, Logical, PCs, BytesR
-<1>6. ASSUME NEW p \in Procs, Next(p, ctr[p]) PROVE IndInv'
+  <2> QED BY <1>5, <2>1, <2>2 DEF ReadByte, IndInv, TypeInv, OwnerInv, NotYet, UserOpen, ChainS, Holding, Logical, PCs, PPCs, BytesR, Procs
+<1>6. ASSUME NEW p \in Users, Next(p, ctr[p]) PROVE IndInv'
   <2>1. ctr[p] \in Ctr /\ Succ(ctr[p]) \in Ctr /\ Bytes[p] \in BytesR /\ ctr[p] # None
     BY SuccType DEF IndInv, TypeInv, BytesR, Ctr
-  <2>2. \A q \in Procs : (pc[q] \in {"holding", "written"} /\ Bytes[q] = Bytes[p]) => q = p
+  <2>2. \A u \in Users : (pc[u] \in {"holding", "written"} /\ Bytes[u] = Bytes[p]) => u = p
     BY <1>6 DEF Next, IndInv, OwnerInv, Holding
-  <2> QED BY <1>6, <2>1, <2>2 DEF Next, IndInv, TypeInv, OwnerInv, NotYet, ChainS, Holding, Logical, PCs, BytesR
-<1>7. ASSUME NEW p \in Procs, WriteByte(p) PROVE IndInv'
+  <2>3. exists
+    BY <1>6 DEF Next, IndInv, NotYet, UserOpen, Procs
+  <2> QED BY <1>6, <2>1, <2>2, <2>3 DEF Next, IndInv, TypeInv, OwnerInv, NotYet, UserOpen, ChainS, Holding, Logical, PCs, PPCs, BytesR, Procs
+<1>7. ASSUME NEW p \in Users, WriteByte(p) PROVE IndInv'
   <2> DEFINE b == Bytes[p]
   <2>1. b \in Nat /\ b \in BytesR /\ b + 1 <= N /\ ctr[p] \in Ctr /\ phys \in Seq(Ctr) /\ Len(phys) <= N /\ Len(phys) \in Nat
     BY DEF IndInv, TypeInv, BytesR
@@ -149,16 +161,18 @@ THEOREM LStepInd == IndInv /\ [LNext]_lvars => IndInv'
     BY <1>7, <2>1, SetByteProp DEF WriteByte
   <2>3. Len(phys') <= N /\ Logical(b)' = ctr[p] /\ \A c \in BytesR : c # b => Logical(c)' = Logical(c)
     BY <2>1, <2>2 DEF Logical, BytesR
-  <2>4. \A q \in Procs : (pc[q] \in {"holding", "written"} /\ Bytes[q] = b) => q = p
+  <2>4. \A u \in Users : (pc[u] \in {"holding", "written"} /\ Bytes[u] = b) => u = p
     BY <1>7 DEF WriteByte, IndInv, OwnerInv, Holding
+  <2>5. exists
+    BY <1>7 DEF WriteByte, IndInv, NotYet, UserOpen, Procs
   <2> HIDE DEF b
-  <2>5. TypeInv' /\ OwnerInv' /\ NotYet'
-    BY <1>7, <2>1, <2>2, <2>3 DEF WriteByte, IndInv, TypeInv, OwnerInv, NotYet, Holding, PCs, BytesR, b
-  <2>6. ChainS'
+  <2>6. TypeInv' /\ OwnerInv' /\ NotYet' /\ UserOpen'
+    BY <1>7, <2>1, <2>2, <2>3, <2>5 DEF WriteByte, IndInv, TypeInv, OwnerInv, NotYet, UserOpen, Holding, PCs, PPCs, BytesR, b
+  <2>7. ChainS'
     BY <1>7, <2>1, <2>3, <2>4 DEF WriteByte, IndInv, TypeInv, ChainS, PCs, BytesR, b
-  <2> QED BY <2>5, <2>6 DEF IndInv
-<1>8. ASSUME NEW p \in Procs, Unlockf(p) PROVE IndInv'
-  BY <1>8 DEF Unlockf, IndInv, TypeInv, OwnerInv, NotYet, ChainS, Holding, Logical, PCs, BytesR
+  <2> QED BY <2>6, <2>7 DEF IndInv
+<1>8. ASSUME NEW p \in Users, Unlockf(p) PROVE IndInv'
+  BY <1>8 DEF Unlockf, IndInv, TypeInv, OwnerInv, NotYet, UserOpen, ChainS, Holding, Logical, PCs, PPCs, BytesR, Procs
 <1> QED BY <1>0, <1>1, <1>2, <1>3, <1>4, <1>5, <1>6, <1>7, <1>8 DEF LNext
 
 -----------------------------------------------------------------------------
@@ -173,7 +187,7 @@ THEOREM IndImplies == IndInv => MutualExclusion /\ OwnerAgrees /\ ValidCounters 
 <1>3. Chain
   BY DEF IndInv, TypeInv, OwnerInv, ChainS, Chain, Holding, BytesR
 <1>4. ZeroOnlyFirst
-  <2> SUFFICES ASSUME NEW p \in Procs, pc[p] \in {"holding", "written"}, ctr[p] = 0, last[Bytes[p]] # None
+  <2> SUFFICES ASSUME NEW p \in Users, pc[p] \in {"holding", "written"}, ctr[p] = 0, last[Bytes[p]] # None
                PROVE FALSE
     BY DEF ZeroOnlyFirst
   <2>1. ctr[p] = Succ(last[Bytes[p]]) /\ last[Bytes[p]] \in Ctr
